@@ -44,6 +44,33 @@ def geomOfJson (j : Json) : Except String (PrlxGeom Float) := do
          phi12 := ← floatField j "phi12", scanRows := ← natField j "r", scanCols := ← natField j "c",
          sx := ← floatField j "sx", sy := ← floatField j "sy", u := ← natField j "u" }
 
+/-- dicts cross as `[[key, bits], …]` -/
+def dictOfJson (j : Json) : Except String (Dict Float) := do
+  (← j.getArr?).toList.mapM fun it => do
+    let pr ← it.getArr?
+    if pr.size != 2 then throw "pair" else
+    pure ((← pr[0]!.getStr?), (← floatOfJson pr[1]!))
+
+def dictToJson (d : Dict Float) : Json :=
+  Json.arr (d.map fun kv => Json.arr #[Json.str kv.1, floatToJson kv.2]).toArray
+
+def optFloat (j : Json) (k : String) : Except String (Option Float) :=
+  match j.getObjVal? k with
+  | .ok .null => pure none
+  | .ok v => do pure (some (← floatOfJson v))
+  | .error _ => pure none
+
+def optDict (j : Json) (k : String) : Except String (Option (Dict Float)) :=
+  match j.getObjVal? k with
+  | .ok .null => pure none
+  | .ok v => do pure (some (← dictOfJson v))
+  | .error _ => pure none
+
+def stateToJson (st : HState Float Float) : Json :=
+  Json.mkObj [("initial_ab", dictToJson st.initialAb), ("optimized_ab", dictToJson st.optimizedAb),
+              ("initial_rot", match st.initialRot with | some r => floatToJson r | none => Json.null),
+              ("optimized_rot", match st.optimizedRot with | some r => floatToJson r | none => Json.null)]
+
 def step (st : Unit) (j : Json) : Unit × Json :=
   match (do
     let op ← strField j "op"
@@ -97,6 +124,30 @@ def step (st : Unit) (j : Json) : Unit × Json :=
         let base := [("runs", Json.arr outs.toArray)]
         let extra := if wantG then [("G", Json.arr (Garr.toList.map cxImgToJson).toArray)] else []
         pure (okJson (Json.mkObj (base ++ extra)))
+    | "history" =>
+        -- HyperparameterState over a list of steps: effective hyper-parameters of every step and the state after it
+        let initRaw ← dictOfJson (← field j "initial_ab")
+        let irot ← optFloat j "initial_rot"
+        let neg : Float → Float := fun x => -x
+        -- `HyperparameterState.__post_init__` validates (canonicalises) the initial aberrations
+        let init ← match canonicalize neg initRaw with
+          | .ok c => pure c
+          | .error _ => throw "initial aberrations"
+        let st0 : HState Float Float := { initialAb := init, optimizedAb := [], initialRot := irot, optimizedRot := none }
+        let steps ← (← arrField j "steps").toList.mapM fun sj => do
+          let kind ← strField sj "kind"
+          let rot ← optFloat sj "rot"
+          if kind == "grid" then
+            pure (Step.grid ((← optDict sj "ab").getD []) rot)
+          else
+            pure (Step.call (← optDict sj "ab") rot)
+        let (_, outs) := steps.foldl (fun (acc : HState Float Float × List Json) s =>
+          let eff := match effective neg (0.0 : Float) acc.1 s with
+            | .ok (a, r) => Json.mkObj [("ab", dictToJson a), ("rot", floatToJson r)]
+            | .error e => errJson (errName e)
+          let st' := stepState neg acc.1 s
+          (st', acc.2 ++ [Json.mkObj [("effective", eff), ("state", stateToJson st')]])) (st0, [])
+        pure (okJson (Json.arr outs.toArray))
     | "qgrid" =>
         let N ← natField j "N"
         let M ← natField j "M"
